@@ -56,10 +56,12 @@ def rule_cpt(repo: Repo) -> List[Ob]:
     add = cls.methods.get("__add_cpt__")
     if add is None:
         raise AnalysisError("__add_cpt__ not found")
-    c = cfg_of(add.node)
+    from ..shape import expanded
+    addx = expanded(repo, add, keep=("__add_default__", "__add_table__", "__add_entry__"))
+    c = cfg_of(addx)
 
     def first_call(name):
-        for x in walk_no_nested(add.node):
+        for x in walk_no_nested(addx):
             if isinstance(x, ast.Call) and call_name(x) == name:
                 return x
         return None
@@ -245,7 +247,8 @@ def rule_codegen(repo: Repo) -> List[Ob]:
     lp = gen.methods.get("__generate_loop__")
     if lp is None:
         raise AnalysisError("__generate_loop__ not found")
-    loops = [n for n in walk_no_nested(lp.node) if isinstance(n, ast.For)]
+    from ..shape import expanded
+    loops = [n for n in walk_no_nested(expanded(repo, lp)) if isinstance(n, ast.For)]
     ok = any("__topological_sort__" in src(l.iter) and "__generate_variable__" in src(l) for l in loops)
     obs.append(Ob("E-codegen", f"{CG}::CodeGenerator.__generate_loop__::topological", CG, lp.node.lineno, lp.qualname, ok,
                   "variables are drawn in topological order (parents before children)" if ok else "variables are not emitted in topological order: a child may be drawn from stale parent values"))
